@@ -24,6 +24,10 @@ def algOf (c : Cfg) : Src.Alg where
   signature := c.signature
   start_index := Int.ofNat c.start
   d := Int.ofNat c.d
+  -- `indices_for_grades` is a dict keyed by the strictly increasing tuples of grades in 0..d
+  indices_for_grades := fun gs =>
+    if gs.all (fun g => decide (0 ≤ g)) && (gs.map Int.toNat).Pairwise (· < ·) && (gs.map Int.toNat).all (· ≤ c.d)
+    then .ok ((c.indicesForGrades (gs.map Int.toNat)).map Int.ofNat) else .error "KeyError"
 
 /-- a model multivector (keys `Nat`) as the python dict of its items (keys `int`) -/
 def castMV {α : Type} (x : MV α) : Py.Dict Int α := x.map fun kv => (Int.ofNat kv.1, kv.2)
